@@ -1,5 +1,6 @@
 import BeyondVerif.Model.Tle
 import BeyondVerif.Model.TleOrb
+import BeyondVerif.Model.TleQuant
 import BeyondVerif.Drv.Util
 namespace BeyondVerif.Drv.C12
 open BeyondVerif BeyondVerif.Drv BeyondVerif.Tle
@@ -151,6 +152,45 @@ def histReply (toks : List String) : Option String :=
     pure (joinWith " ; " ((run ops st).2.map resText))
   | _ => none
 
+/-! ### off-grid orbits (`Model/TleQuant.lean`): every number as the exact rational of a double -/
+
+def qOfToks : List String → Option (Q × List String)
+  | n :: d :: r => do pure (⟨← n.toInt?, ← d.toNat?⟩, r)
+  | _ => none
+
+def sqOfToks : List String → Option (Bool × Q × List String)
+  | s :: n :: d :: r => do pure ((← s.toNat?) = 1, ⟨← n.toInt?, ← d.toNat?⟩, r)
+  | _ => none
+
+/-- `name norad cospar dateUs offsetUs <s n d: ndot> <s n d: ndd> <s n d: bstar> elnb <n d: inc raan ecc argp ma mm> revs` -/
+def qorbOfToks (t : List String) : Option QOrb :=
+  match t with
+  | name :: norad :: cospar :: dateUs :: offsetUs :: r => do
+    let name ← unhex name
+    let norad ← unhex norad
+    let cospar ← unhex cospar
+    let dateUs ← dateUs.toInt?
+    let offsetUs ← offsetUs.toInt?
+    let (ndotNeg, ndot, r) ← sqOfToks r
+    let (nddNeg, ndd, r) ← sqOfToks r
+    let (bstarNeg, bstar, r) ← sqOfToks r
+    match r with
+    | elnb :: r =>
+      let elnb ← elnb.toInt?
+      let (inc, r) ← qOfToks r
+      let (raan, r) ← qOfToks r
+      let (ecc, r) ← qOfToks r
+      let (argp, r) ← qOfToks r
+      let (ma, r) ← qOfToks r
+      let (mm, r) ← qOfToks r
+      match r with
+      | [revs] =>
+        let revs ← revs.toInt?
+        pure { name, norad, cospar, dateUs, offsetUs, ndotNeg, ndot, nddNeg, ndd, bstarNeg, bstar, elnb, inc, raan, ecc, argp, ma, mm, revs }
+      | _ => none
+    | _ => none
+  | _ => none
+
 def handle : List String → Option String
   | ["tle.ck", l] => some (match unhex l with
       | some l => (match checksum l with | some c => s!"ok {c}" | none => "err value-error")
@@ -176,6 +216,15 @@ def handle : List String → Option String
   | ["tle.tounfl", n, m, s] => some (match n.toNat?, m.toNat?, s.toInt? with
       | some n, some m, some s => "ok " ++ hex (unfloat (toUnfl ⟨n = 1, m, s⟩))
       | _, _, _ => "bad-op")
+  | "tle.wq" :: t => some (match qorbOfToks t with
+      | some o => resParsed (fromOrbitQ o)
+      | none => "bad-op")
+  | ["tle.unflq", s, n, d] => some (match s.toNat?, n.toInt?, d.toNat? with
+      | some s, some n, some d => "ok " ++ hex (unfloat (unflQ (s = 1) ⟨n, d⟩))
+      | _, _, _ => "bad-op")
+  | ["tle.epochabs", t] => some (match t.toInt? with
+      | some t => s!"ok {(epochOfAbs t).1} {(epochOfAbs t).2}"
+      | none => "bad-op")
   | "tle.hist" :: t => some (match histReply t with | some r => r | none => "bad-op")
   | "tle.fs" :: ls => some (match linesOf ls with
       | some ls =>
